@@ -159,6 +159,9 @@ class TlcResult:
         m = re.search(r"Action property (\S+) is violated", out)
         if m:
             self.invariant = m.group(1)
+        m = re.search(r"The invariant of (\S+) is equal to FALSE", out)
+        if m:
+            self.invariant = m.group(1)           # violated already in an initial state
         if "Temporal properties were violated" in out:
             self.invariant = self.invariant or "temporal"
         if "Deadlock reached" in out:
@@ -198,7 +201,7 @@ def tlc(module, cfg, wd, workers=None, xmx="4g", extra=(), env=None, timeout=180
     rc, out, to = run(cmd, timeout=timeout, env=env, cwd=SPEC)
     shutil.rmtree(meta, ignore_errors=True)
     r = TlcResult(rc, out, to)
-    if r.parse_error or to or (rc not in (0, 10, 11, 12, 13) and not r.ok):
+    if r.parse_error or to or (rc not in (0, 10, 11, 12, 13) and not r.ok and not r.invariant):
         # 12 = safety violation, 13 = liveness violation, 10 = assumption/postcondition, 11 = deadlock
         brief = "\n".join(l for l in out.splitlines() if not l.startswith(("Parsing file", "Semantic processing")))
         raise ToolError("TLC failed on %s/%s rc=%s timeout=%s\n%s" % (module, cfg, rc, to, brief[-3000:]))
